@@ -53,7 +53,10 @@ func vfGccNewDriver(sc *vfGccScript, lg *vfGccLog) (*vfGccDriver, error) {
 	if est == nil {
 		return nil, errors.New("OnNewPeerConnection was not called")
 	}
-	est.OnTargetBitrateChange(func(v int) { lg.cb(v) })
+	est.OnTargetBitrateChange(func(v int) {
+		_ = est.GetTargetBitrate() // an observer that asks the estimator from inside its callback
+		lg.cb(v)
+	})
 	var next []byte
 	rd := ic.BindRTCPReader(interceptor.RTCPReaderFunc(
 		func(b []byte, a interceptor.Attributes) (int, interceptor.Attributes, error) {
